@@ -115,6 +115,19 @@ s=s.replace(old2,"""        let _ = self.broadcast.send(result);
 open(p,'w').write(s)
 EOF
   ;;
+4)
+  # C08: only the LAST transaction of a block decides whether the block is new (`found |=` -> `found =`)
+  python3 - <<EOF
+p='$WT/crates/services/importer/src/ports.rs'
+s=open(p).read()
+old="""            found |= storage
+                .storage_as_mut::<Transactions>()"""
+new="""            found = storage
+                .storage_as_mut::<Transactions>()"""
+assert old in s
+open(p,'w').write(s.replace(old,new))
+EOF
+  ;;
 esac
 git -C $WT diff --stat
 export VERIF_REPO_OVERRIDE=$WT
